@@ -46,7 +46,7 @@ impl Prop for C06 {
 
     fn plan(&self, tier: Tier) -> Plan {
         let mut p = Plan::new(match tier {
-            Tier::Quick => 1500,
+            Tier::Quick => 4000,
             Tier::Thorough => 40_000,
         });
         p.workers = 12;
